@@ -33,6 +33,7 @@ import (
 //                             transaction of setter calls under a field checker; the bucket is
 //                             dumped (raw bytes) in a later transaction after every phase and
 //                             finally every name is read with every getter
+//   X ...                     persists through PersistContext over a chain of stores (c13x.go)
 // U/K/D/N run in a child process with an address-space limit: a decoder that trusts a hostile
 // length must not take the harness down.
 func init() { commands["c13"] = runC13 }
@@ -551,6 +552,17 @@ func c13RunOps(s *c13Toks, nops int, api string, spec *c13Checker, tb *boltz.Typ
 	useCtx := api == "c"
 	var outs []string
 	for i := 0; i < nops; i++ {
+		c13RunOneOp(s, useCtx, ctx, tb, chk, &outs)
+	}
+	return outs
+}
+
+// c13RunOneOp parses one setter call and performs it: through ctx where PersistContext has the
+// method (useCtx), else on the bucket with the given checker
+func c13RunOneOp(s *c13Toks, useCtx bool, ctx *boltz.PersistContext, tb *boltz.TypedBucket, chk boltz.FieldChecker, outsp *[]string) {
+	outs := *outsp
+	defer func() { *outsp = outs }()
+	{
 		kind := s.next()
 		name := string(s.bytes())
 		switch kind {
@@ -668,7 +680,6 @@ func c13RunOps(s *c13Toks, nops int, api string, spec *c13Checker, tb *boltz.Typ
 			panic("bad op " + kind)
 		}
 	}
-	return outs
 }
 
 var errC13Phase = fmt.Errorf("phase failed")
@@ -680,7 +691,7 @@ func (e *c13Env) dumpEntity(o *c13Out) error {
 	})
 }
 
-func (e *c13Env) scenario(s *c13Toks, o *c13Out) error {
+func (e *c13Env) scenario(s *c13Toks, o *c13Out) (ferr error) {
 	// initial state, written with plain bbolt calls
 	err := e.db.Update(func(tx *bbolt.Tx) error {
 		if tx.Bucket(c13Root) != nil {
@@ -743,7 +754,7 @@ func (e *c13Env) scenario(s *c13Toks, o *c13Out) error {
 			o.tok("err")
 		default:
 			o.tok("ok")
-			for _, x := range outs {
+			for _, x := range append(outs, c13ToSliceTok(spec)...) {
 				o.tok(x)
 			}
 			if err := e.dumpEntity(o); err != nil {
@@ -759,50 +770,22 @@ func (e *c13Env) scenario(s *c13Toks, o *c13Out) error {
 	for i := 0; i < nn; i++ {
 		names = append(names, string(s.bytes()))
 	}
+	defer func() {
+		if ferr == nil {
+			var x *string
+			if len(names) > 0 {
+				x = &names[0]
+			}
+			ferr = c13EntitySections(o, e.db, func(tx *bbolt.Tx) *boltz.TypedBucket {
+				return boltz.NewTypedBucket(nil, tx.Bucket(c13Root)).GetBucket("e")
+			}, x)
+		}
+	}()
 	return e.db.View(func(tx *bbolt.Tx) error {
 		root := boltz.NewTypedBucket(nil, tx.Bucket(c13Root))
 		tb := root.GetBucket("e")
 		for _, name := range names {
-			o.tok("|")
-			o.tok("F")
-			o.tok(hxs(name))
-			var sp *string
-			if guarded(func() { sp = tb.GetString(name) }) {
-				o.tok("str=" + c13StrTok(sp))
-			} else {
-				o.tok("str=p")
-			}
-			c13TypedToks(o, func() *bool { return tb.GetBool(name) }, func() *int32 { return tb.GetInt32(name) },
-				func() *int64 { return tb.GetInt64(name) }, func() *float64 { return tb.GetFloat64(name) },
-				func() *time.Time { return tb.GetTime(name) })
-			var sl []string
-			if guarded(func() { sl = tb.GetStringList(name) }) {
-				o.tok("sl=" + c13SlistTok(sl))
-			} else {
-				o.tok("sl=p")
-			}
-			o.tok("|")
-			o.tok("L")
-			o.tok(hxs(name))
-			var l []interface{}
-			if guarded(func() { l = tb.GetList(name) }) {
-				if l == nil {
-					o.tok("n")
-				} else {
-					o.value(l)
-				}
-			} else {
-				o.tok("p")
-			}
-			o.tok("|")
-			o.tok("M")
-			o.tok(hxs(name))
-			var m map[string]interface{}
-			if guarded(func() { m = tb.GetMap(name) }) {
-				o.value(m)
-			} else {
-				o.tok("x")
-			}
+			c13ReadField(o, []string{hxs(name)}, tb, name)
 		}
 		o.tok("|")
 		o.tok("A")
@@ -814,6 +797,221 @@ func (e *c13Env) scenario(s *c13Toks, o *c13Out) error {
 		}
 		return nil
 	})
+}
+
+// c13ReadField calls every getter on one field of the bucket; label names the field in the output
+func c13ReadField(o *c13Out, label []string, tb *boltz.TypedBucket, name string) {
+	lab := func() {
+		for _, l := range label {
+			o.tok(l)
+		}
+	}
+	o.tok("|")
+	o.tok("F")
+	lab()
+	var sp *string
+	if guarded(func() { sp = tb.GetString(name) }) {
+		o.tok("str=" + c13StrTok(sp))
+	} else {
+		o.tok("str=p")
+	}
+	c13TypedToks(o, func() *bool { return tb.GetBool(name) }, func() *int32 { return tb.GetInt32(name) },
+		func() *int64 { return tb.GetInt64(name) }, func() *float64 { return tb.GetFloat64(name) },
+		func() *time.Time { return tb.GetTime(name) })
+	var sl []string
+	if guarded(func() { sl = tb.GetStringList(name) }) {
+		o.tok("sl=" + c13SlistTok(sl))
+	} else {
+		o.tok("sl=p")
+	}
+	o.tok("|")
+	o.tok("L")
+	lab()
+	var l []interface{}
+	if guarded(func() { l = tb.GetList(name) }) {
+		if l == nil {
+			o.tok("n")
+		} else {
+			o.value(l)
+		}
+	} else {
+		o.tok("p")
+	}
+	o.tok("|")
+	o.tok("M")
+	lab()
+	var m map[string]interface{}
+	if guarded(func() { m = tb.GetMap(name) }) {
+		o.value(m)
+	} else {
+		o.tok("x")
+	}
+	// the getters with a default / an error for a null or absent field, on fresh wrappers of the
+	// same bbolt bucket (the *OrError getters latch an error on the wrapper)
+	o.tok("|")
+	o.tok("G")
+	lab()
+	fresh := func() *boltz.TypedBucket { return boltz.NewTypedBucket(tb.GetParent(), tb.Bucket) }
+	tok := "p"
+	guarded(func() { tok = "s:" + hxs(fresh().GetStringWithDefault(name, c13DfltString)) })
+	o.tok("swd=" + tok)
+	tok, etok := "p", "p"
+	guarded(func() {
+		w := fresh()
+		v := w.GetStringOrError(name)
+		tok, etok = "s:"+hxs(v), strconv.Itoa(b2i(w.HasError()))
+	})
+	o.tok("soe=" + tok)
+	o.tok("soee=" + etok)
+	tok = "p"
+	guarded(func() {
+		tok = strconv.Itoa(b2i(fresh().GetBoolWithDefault(name, true))) + strconv.Itoa(b2i(fresh().GetBoolWithDefault(name, false)))
+	})
+	o.tok("bd=" + tok)
+	tok = "p"
+	guarded(func() { tok = strconv.FormatInt(int64(fresh().GetInt32WithDefault(name, -4242)), 10) })
+	o.tok("i32d=" + tok)
+	tok = "p"
+	guarded(func() { tok = strconv.FormatInt(fresh().GetInt64WithDefault(name, 424242), 10) })
+	o.tok("i64d=" + tok)
+	tok, etok = "p", "p"
+	guarded(func() {
+		w := fresh()
+		v := w.GetTimeOrError(name)
+		tok, etok = strconv.FormatInt(c13AbsSec(v), 10)+":"+strconv.Itoa(v.Nanosecond()), strconv.Itoa(b2i(w.HasError()))
+	})
+	o.tok("toe=" + tok)
+	o.tok("toee=" + etok)
+	tok = "p"
+	guarded(func() {
+		v := fresh().GetTimeOrDefault(name, c13DfltTime)
+		tok = strconv.FormatInt(c13AbsSec(v), 10) + ":" + strconv.Itoa(v.Nanosecond())
+	})
+	o.tok("tod=" + tok)
+	tok = "p"
+	guarded(func() { tok = strconv.Itoa(b2i(tb.IsStringListEmpty(name))) })
+	o.tok("sle=" + tok)
+	tok = "p"
+	guarded(func() {
+		if child := tb.GetBucket(name); child == nil {
+			tok = "n"
+		} else {
+			tok = strconv.Itoa(b2i(child.GetParent() == tb))
+		}
+	})
+	o.tok("par=" + tok)
+}
+
+const c13DfltString = "dflt"
+
+var c13DfltTime = time.Unix(63000000000-c13UnixToInternal, 7).UTC()
+
+var errC13Rollback = fmt.Errorf("rollback")
+
+// c13EntitySections: ForEachTypedBucket on the entity bucket, then TypedBucket.Copy of it into a
+// scratch bucket - whole, without the keys named xname at any depth, and the whole over the
+// partial copy; the scratch transaction is rolled back
+func c13EntitySections(o *c13Out, db *bbolt.DB, entity func(tx *bbolt.Tx) *boltz.TypedBucket, xname *string) error {
+	err := db.Update(func(tx *bbolt.Tx) error {
+		src := entity(tx)
+		o.tok("|")
+		o.tok("B")
+		var kids []string
+		ok := guarded(func() {
+			_ = src.ForEachTypedBucket(func(key string, child *boltz.TypedBucket) error {
+				n := 0
+				c := child.Cursor()
+				for k, _ := c.First(); k != nil; k, _ = c.Next() {
+					n++
+				}
+				kids = append(kids, hxs(key)+":"+strconv.Itoa(n))
+				return nil
+			})
+		})
+		if !ok {
+			o.tok("panic")
+		} else {
+			o.tok(strconv.Itoa(len(kids)))
+			for _, k := range kids {
+				o.tok(k)
+			}
+		}
+		scratchNo := 0
+		newDest := func() (*boltz.TypedBucket, error) {
+			scratchNo++
+			b, err := tx.CreateBucket([]byte("c13copy" + strconv.Itoa(scratchNo)))
+			if err != nil {
+				return nil, err
+			}
+			return boltz.NewTypedBucket(nil, b), nil
+		}
+		doCopy := func(dest *boltz.TypedBucket, filter func(path []string) bool, digest bool) bool {
+			np, sd := 0, 0
+			var err error
+			ok := guarded(func() {
+				err = dest.Copy(src, func(path []string) bool {
+					np++
+					sd += len(path)
+					return filter(path)
+				})
+			})
+			if digest {
+				o.tok(strconv.Itoa(np))
+				o.tok(strconv.Itoa(sd))
+			}
+			switch {
+			case !ok:
+				o.tok("panic")
+			case err != nil:
+				o.tok("err")
+			default:
+				o.tok("ok")
+				o.dump(dest.Bucket)
+				return true
+			}
+			return false
+		}
+		all := func([]string) bool { return true }
+		full, err := newDest()
+		if err != nil {
+			return err
+		}
+		o.tok("|")
+		o.tok("C")
+		doCopy(full, all, true)
+		if xname != nil {
+			part, err := newDest()
+			if err != nil {
+				return err
+			}
+			o.tok("|")
+			o.tok("E")
+			o.tok(hxs(*xname))
+			okPart := doCopy(part, func(path []string) bool { return path[len(path)-1] != *xname }, true)
+			o.tok("|")
+			o.tok("O")
+			if okPart {
+				doCopy(part, all, false)
+			} else {
+				o.tok("skip")
+			}
+		}
+		return errC13Rollback
+	})
+	if err != nil && err != errC13Rollback {
+		return err
+	}
+	return nil
+}
+
+// c13ToSliceTok: MapFieldChecker.ToSlice of a plain map checker, as a set
+func c13ToSliceTok(spec *c13Checker) []string {
+	if spec.kind != "c" {
+		return nil
+	}
+	l := spec.build().(boltz.MapFieldChecker).ToSlice()
+	sort.Strings(l)
+	return []string{"ts:" + c13SlistTok(l)}
 }
 
 // c13SkipOps advances the token stream over nops ops without running them
@@ -900,6 +1098,10 @@ func (e *c13Env) exec(line string) string {
 		c13FieldTo(s.bytes(), o)
 	case "S":
 		if err := e.scenario(s, o); err != nil {
+			o.tok("harness-error:" + strings.ReplaceAll(err.Error(), " ", "_"))
+		}
+	case "X":
+		if err := e.c13xScenario(s, o); err != nil {
 			o.tok("harness-error:" + strings.ReplaceAll(err.Error(), " ", "_"))
 		}
 	default:
